@@ -155,6 +155,9 @@ pub struct Shared {
     pub script: Option<RefCell<std::collections::VecDeque<SolvingResult>>>,
 }
 
+/// Upper bound on the number of solve calls per `Shared` (per case); unlimited unless a mode sets it.
+pub static SOLVE_BUDGET: std::sync::atomic::AtomicUsize = std::sync::atomic::AtomicUsize::new(usize::MAX);
+
 /// A SatSolver that forwards to CaDiCaL and records every interaction.
 pub struct Recording {
     inner: Box<dyn SatSolver>,
@@ -185,6 +188,9 @@ impl SatSolver for Recording {
         // watchdog: a query that keeps calling the oracle is cut (reported as a panic of the query)
         if k >= SAT_CALL_CAP {
             panic!("sat-call-cap-exceeded: more than {} SAT calls in one case", SAT_CALL_CAP);
+        if k >= SOLVE_BUDGET.load(std::sync::atomic::Ordering::Relaxed) {
+            // a run-away enumeration loop in the code under test: reported as a panic of the call
+            panic!("solve budget of the harness exceeded");
         }
         let r = if let Fault::UnknownAt(f) = self.sh.fault {
             if f == k {
